@@ -249,8 +249,14 @@ class PipelineMonitor:
             ctx.nontrivial(str(engine), tuple(tuple(rows_of(v)) for v in st["inputs"]))
 
 
-def set_inputs(engine, block):
-    """block: list of rows; one row -> plain floats, several rows -> arrays"""
+def set_inputs(engine, block, in_place=False):
+    """block: list of rows; one row -> plain floats, several rows -> arrays (in_place: refill the arrays the variables
+    already hold instead of assigning new ones - the same objects with new contents)"""
+    if in_place and len(block) > 1 and all(isinstance(v.value, np.ndarray) and np.shape(v.value) == (len(block),) and not v.lock_range and v.value.flags.writeable for v in engine.input_variables):
+        arr = np.array(block, dtype=float)
+        for k, v in enumerate(engine.input_variables):
+            v.value[:] = arr[:, k]
+        return True
     if len(block) == 1:
         for v, x in zip(engine.input_variables, block[0]):
             v.value = x
@@ -290,11 +296,14 @@ def run(ctx):
                 continue
             rows = E.rows(rnd, spec, nrows)
             k = 0
+            last_size = 0
             while k < len(rows):
-                size = 1 if (not general or rnd.random() < 0.5) else rnd.choice([2, 3, 5])
+                size = 1 if (not general or rnd.random() < 0.5) else (last_size if (last_size > 1 and rnd.random() < 0.5) else rnd.choice([2, 3, 5]))
+                last_size = size
                 block = rows[k : k + size]
                 k += size
-                set_inputs(engine, block)
+                if set_inputs(engine, block, in_place=rnd.random() < 0.5):
+                    ctx.hit("event:input arrays refilled in place")
                 try:
                     engine.process()
                 except Exception:
